@@ -669,9 +669,22 @@ def rule_M(ctx):
     bad = None
     n_cases = 0
     run = orders.make_func(g.node, fn)
-    for lname, pts in lines.items():
-        ref = Track([O(P(*p_)) for p_ in pts])
-        qs = queries[lname]
+    # each polyline is used twice: as given, then moved in place (the same Track object, same number of vertices, other coordinates -
+    # what translate / rotate / an edited vertex do): the projection is on the polyline as it is at the time of the call
+    refs = {}
+    for (lname, pts0), moved in itertools.product(lines.items(), (False, True)):
+        if moved and lname not in refs:
+            continue
+        pts = [(7.0 - 0.6 * y_ + 0.8 * x_, -3.0 + 0.8 * y_ + 0.6 * x_) for x_, y_ in pts0] if moved else list(pts0)
+        if moved:
+            ref = refs[lname]
+            for o_, p_ in zip(ref.obs, pts):
+                o_.position.x, o_.position.y = float(p_[0]), float(p_[1])
+            lname = lname + ' (the same track object after being rotated and translated in place)'
+            qs = [(7.0 - 0.6 * y_ + 0.8 * x_, -3.0 + 0.8 * y_ + 0.6 * x_) for x_, y_ in queries[lname.split(' (the same')[0]]]
+        else:
+            ref = refs[lname] = Track([O(P(*p_)) for p_ in pts])
+            qs = queries[lname]
         src = Track([O(P(*q_)) for q_ in qs])
         try:
             out = run(src, ref)
